@@ -716,10 +716,13 @@ import re as _re
 
 
 def c14_extract(inj, insts):
-    """Extracts the offset arithmetic of vectorise_mmap from the CURRENT source
-    text of composition/src/oligo.rs and emits it as Rust items (see
-    harness/composition/verif_c14.rs).  Unknown structure -> InjectError ->
-    the check is inconclusive (never a pass, never a violation)."""
+    """Extracts the file-layout arithmetic of vectorise_mmap from the CURRENT source text of
+    composition/src/oligo.rs as a program slice: the sizing prelude (everything before the file
+    is mapped, with the record-count pass replaced by a symbolic `seq_count` and the header text
+    by a length model), the `let` statements of the worker set-up, and the statements between the
+    row assembly and the row `write_at`.  The slice is compiled verbatim into the harness
+    (see harness/composition/verif_c14.rs).  Unknown structure -> InjectError -> the check is
+    inconclusive (never a pass, never a violation)."""
     import inject as _inject
     gen = gen_tables(inj, insts)
     p = _os.path.join(inj.ws, "composition/src/oligo.rs")
@@ -733,46 +736,82 @@ def c14_extract(inj, insts):
         mm = _re.search(rx, text, flags)
         if not mm:
             raise _inject.InjectError("C14(c): cannot extract %s from vectorise_mmap" % what)
-        return mm.group(1).strip()
+        return mm
 
-    number_size = need(r"const NUMBER_SIZE: usize = ([^;]+);", "NUMBER_SIZE", src)
-    per_line = need(r"let per_line_size = ([^;]+);", "per_line_size")
-    tail = need(r"\.seq_count\s*\}\s*([^;]*);", "file size expression", body, _re.S)
-    hadd = need(r"estimated_file_size \+= ([^;]+);", "header addend")
-    start_pos = need(r"let start_pos = ([^;]+);", "start_pos")
-    pos = need(r"write_at\(kvec_str\.as_bytes\(\),\s*([^;]+?)\);", "row write position", body, _re.S)
-    hpos = need(r"write_at\(header\.as_bytes\(\),\s*([^;]+?)\);", "header write position", body, _re.S)
+    number_size = need(r"const NUMBER_SIZE: usize = ([^;]+);", "NUMBER_SIZE", src).group(1).strip()
+    lines = body.split("\n")
+    cut = [i for i, l in enumerate(lines) if "mmap_file_for_writing" in l]
+    if not cut:
+        raise _inject.InjectError("C14(c): cannot find the call that maps the output file in vectorise_mmap")
+    prelude = "\n".join(lines[1:cut[0]])
+    prelude, n1 = _re.subn(r"\{\s*let format = SeqFormat::get\(&self\.in_path\)\.unwrap\(\);\s*let reader = [^;]+;\s*Sequences::seq_stats\(format, reader\)\.seq_count\s*\}",
+                           "{ seq_count }", prelude, flags=_re.S)
+    if n1 != 1:
+        raise _inject.InjectError("C14(c): cannot find the record-count pass (seq_stats) in the sizing prelude of vectorise_mmap")
+    # worker set-up: `let` statements between the thread loop head and the spawn (e.g. `let header_len = header.len();`)
+    mm = need(r"for _ in 0\.\.self\.threads \{(.*?)scope\.spawn\(", "the worker set-up", body, _re.S)
+    setup = "\n".join(l for l in mm.group(1).split("\n") if l.strip().startswith("let ") and "Arc::clone" not in l)
     # guards of the row-length model: each value must be produced by the std fixed-width float
     # formatting and the row assembled by join(delim) + newline; otherwise the model does not apply
-    vfmt = need(r"\.map\(\|val\|\s*(format!\(\"\{:\.\*\}\",\s*NUMBER_SIZE\s*-\s*2,\s*val\))\s*\)", "the value formatting `format!(\"{:.*}\", NUMBER_SIZE - 2, val)` (row-length model not applicable to this code)", body, _re.S)
-    rjoin = need(r"let kvec_str = (format!\(\"\{\}\\n\",\s*kvec_str\.join\(&self\.delim\)\));", "the row assembly `format!(\"{}\\n\", kvec_str.join(&self.delim))` (row-length model not applicable to this code)", body, _re.S)
+    vfmt = need(r"\.map\(\|val\|\s*(format!\(\"\{:\.\*\}\",\s*NUMBER_SIZE\s*-\s*2,\s*val\))\s*\)", "the value formatting `format!(\"{:.*}\", NUMBER_SIZE - 2, val)` (row-length model not applicable to this code)", body, _re.S).group(1)
+    mj = need(r"let kvec_str = (format!\(\"\{\}\\n\",\s*kvec_str\.join\(&self\.delim\)\));", "the row assembly `format!(\"{}\\n\", kvec_str.join(&self.delim))` (row-length model not applicable to this code)", body, _re.S)
+    rjoin = mj.group(1)
+    rest = body[mj.end():]
+    mw = need(r"write_at\(kvec_str\.as_bytes\(\),\s*([^;]+?)\);", "the row write position", rest, _re.S)
+    pos = mw.group(1).strip()
+    between = rest[:mw.start()]
+    stmts = "\n".join(l for l in between.split("\n") if l.strip() and not l.strip().startswith(("unsafe", "mm_slice", "//")) and l.strip() != "}")
+    hpos = need(r"write_at\(header\.as_bytes\(\),\s*([^;]+?)\);", "the header write position", body, _re.S).group(1).strip()
 
     def sub(e):
-        e = e.replace("self.kcount", "kcount").replace("self.delim.len()", "delim_len").replace("self.ksize", "k")
-        e = e.replace("kvec_str.len()", "row_len").replace("record.n", "n").replace("header.len()", "header_len")
+        e = e.replace("self.get_header().join(&self.delim) + \"\\n\"", "Txt(header_len_model)")
+        e = e.replace("String::new()", "Txt(0)")
+        e = e.replace("self.", "me.")
         return e
 
     code = """const NUMBER_SIZE: usize = %s;
-    const HEADER_WRITE_POS: usize = %s;
-    fn per_line_size_of(kcount: usize, delim_len: usize, k: usize) -> usize {
-        %s
-    }
-    fn file_size_of(seq_count: usize, header_on: bool, header_len: usize, delim_len: usize, kcount: usize, k: usize) -> usize {
-        let per_line_size = per_line_size_of(kcount, delim_len, k);
-        let mut estimated_file_size = { seq_count } %s;
-        if header_on {
-            estimated_file_size += %s;
+    struct Txt(usize);
+    impl Txt {
+        fn len(&self) -> usize {
+            self.0
         }
-        estimated_file_size
     }
-    fn row_offset(n: usize, row_len: usize, header_len: usize, delim_len: usize, kcount: usize, k: usize) -> usize {
-        let per_line_size = per_line_size_of(kcount, delim_len, k);
-        let start_pos = %s;
-        %s
-    }""" % (number_size, sub(hpos), sub(per_line), sub(tail), sub(hadd), sub(start_pos), sub(pos))
-    inj.extra_evidence["c14c_extracted_expressions"] = {
-        "NUMBER_SIZE": number_size, "per_line_size": per_line, "file_size": "seq_count " + tail, "header_addend": hadd,
-        "start_pos": start_pos, "row_write_position": pos, "header_write_position": hpos,
+    struct Dl(usize);
+    impl Dl {
+        fn len(&self) -> usize {
+            self.0
+        }
+    }
+    struct Me {
+        kcount: usize,
+        ksize: usize,
+        delim: Dl,
+        header: bool,
+        norm: bool,
+        threads: usize,
+    }
+    struct RecN {
+        n: usize,
+    }
+    /// (size of the mapped file, position of the row write of record n, position of the header write)
+    #[allow(unused_mut, unused_variables, unused_assignments)]
+    fn layout(me: &Me, seq_count: usize, header_len_model: usize, row_len: usize, n: usize) -> (usize, usize, usize) {
+        // ---- sizing prelude of vectorise_mmap (verbatim; record-count pass -> seq_count, header text -> length model)
+%s
+        // ---- worker set-up (verbatim `let` statements)
+%s
+        // ---- per record: between the row assembly and the row write (verbatim)
+        let record = RecN { n };
+        let kvec_str = Txt(row_len);
+%s
+        (estimated_file_size, %s, %s)
+    }""" % (number_size, sub(prelude), sub(setup), sub(stmts), sub(pos), sub(hpos))
+    inj.extra_evidence["c14c_extracted_slice"] = {
+        "NUMBER_SIZE": number_size,
+        "sizing_prelude": [" ".join(l.split()) for l in prelude.split("\n") if l.strip() and not l.strip().startswith("//")],
+        "worker_setup": [" ".join(l.split()) for l in setup.split("\n") if l.strip()],
+        "per_record": [" ".join(l.split()) for l in stmts.split("\n") if l.strip()],
+        "row_write_position": pos, "header_write_position": hpos,
         "row_value_formatting (guard of the row-length model)": vfmt, "row_assembly (guard)": rjoin,
     }
     gen["C14C"] = code
